@@ -1021,7 +1021,7 @@ PROPS["C06"] = dict(
     cap=dict(quick=600, thorough=900), mem_gb=18, jobs=3,
     harnesses=[
         _cx("cx_resolve_var_d1", "quick", bounds="compiler: a closure in a function with 3+1 locals (solver-chosen names, shadowing occurs), one earlier resolve, any queried name: the upvalue designates the innermost binding in the enclosing function and marks it captured"),
-        _cx("cx_resolve_var_d1b", "x", bounds="same with 2+2 locals and two earlier resolves"),
+        _cx("cx_resolve_var_d1b", "thorough", bounds="same with 2+2 locals and two earlier resolves (570 s)"),
         _cx("cx_resolve_var_d1_n20", "thorough", bounds="closure without own locals in a function with two locals of solver-chosen names"),
         _cx("cx_resolve_var_d1_n21", "thorough", bounds="closure with one local in a function with two locals, names solver-chosen (the closure's own local may shadow)"),
         _cx("cx_resolve_var_d2", "x", bounds="(did not close: 13.5 GB after 19 min) closure in closure in function, 2+1+1 locals, two earlier resolves per level: non-local upvalue chains"),
